@@ -182,6 +182,8 @@ def run_case(case, ctx):
     if k == "unknown":
         ctx.nontrivial()
         code = case["code"]
+        if code.upper() in iso.TABLE and code != code.upper():
+            Money.register_currency(code.upper())     # a registered currency must not make its misspelling known
         before = len(Money.units())
         _raises(ctx, "unknown", f"Money.register_currency({code!r})", lambda: Money.register_currency(code), ValueError)
         _raises(ctx, "unknown/info", f"get_currency_info({code!r})", lambda: get_currency_info(code), ValueError)
